@@ -60,12 +60,12 @@ func (v *Verdict) TotalObligations() int {
 
 // RunResult is the outcome of executing one plan.
 type RunResult struct {
-	H       *History
-	Online  Verdict // violations/obligations found by in-run checks
+	H        *History
+	Online   Verdict // violations/obligations found by in-run checks
 	InfraErr string
-	RealMs  float64
+	RealMs   float64
 	NetStats simnet.Stats
-	FSFired map[string]int
+	FSFired  map[string]int
 }
 
 // ActionHandler executes a property-specific action kind.
